@@ -27,7 +27,7 @@ From Coq Require Import String.
 From Coq Require Import NArith List.   (* after String: [length] is List.length *)
 From BU Require Import Base.Exn Base.Bytes Gen.CoinsConsts Model.Coins Gen.Coins.
 From BU Require Import Lemmas.CoinsExpected.
-From BU Require Lemmas.CoinsOk Lemmas.Registry.
+From BU Require Lemmas.CoinsOk Lemmas.CoinsPath Lemmas.Registry.
 Import ListNotations.
 Open Scope N_scope.
 
@@ -118,6 +118,30 @@ Example parse_path_example :
 Proof. exact CoinsOk.parse_path_example. Qed.
 Print Assumptions parse_path_example.
 
+(* the parser is a left inverse of the printer (Bip32Path.ToStr) on ALL index lists with legal key
+   indices and both flags -- induction over decimal digits and over split/join, unbounded *)
+Theorem path_parse_show : forall a p, Forall (fun i => i <= key_index_max) p ->
+  parse_path (show_path a p) = Ok (a, p).
+Proof. exact CoinsPath.parse_show_path. Qed.
+Print Assumptions path_parse_show.
+
+Theorem show_path_injective : forall a b p q,
+  Forall (fun i => i <= key_index_max) p -> Forall (fun i => i <= key_index_max) q ->
+  show_path a p = show_path b q -> a = b /\ p = q.
+Proof. exact CoinsPath.show_path_inj. Qed.
+Print Assumptions show_path_injective.
+
+Example show_path_example :
+  show_path true [harden 44; harden 0; harden 0; 0; 4294967295] = str "m/44'/0'/0'/0/2147483647'" /\
+  show_path false [harden 0; 0; 0] = str "0'/0/0" /\ show_path true [] = str "m" /\ show_path false [] = [].
+Proof. repeat split; vm_compute; reflexivity. Qed.
+Print Assumptions show_path_example.
+
+(* every default path of the table is the canonical spelling of the indices it parses to *)
+Theorem default_paths_canonical : forallb CoinsOk.def_path_canonical all_coins = true.
+Proof. exact CoinsOk.def_paths_canonical. Qed.
+Print Assumptions default_paths_canonical.
+
 Theorem members_distinct : str_nodupb CoinsOk.member_keys = true.
 Proof. exact CoinsOk.members_distinct. Qed.
 Print Assumptions members_distinct.
@@ -134,6 +158,15 @@ Theorem aliases_complete :
   forallb (fun c => forallb (CoinsOk.same_conf_listed c) all_coins) all_coins = true.
 Proof. exact CoinsOk.aliases_complete. Qed.
 Print Assumptions aliases_complete.
+
+(* compatibility aliases of the containers (CoinsConf.Neo = CoinsConf.NeoLegacy, Bip44Conf.Neo =
+   Bip44Conf.NeoLegacy): the alias is not a second definition, its target is a table entry *)
+Theorem container_aliases_ok :
+  forallb (fun ab => match find_cc (snd ab) coins_conf_table, find_cc (fst ab) coins_conf_table with
+                     | Some _, None => true | _, _ => false end) cconf_aliases = true /\
+  forallb CoinsOk.conf_attr_alias_ok conf_attr_aliases = true.
+Proof. split; [exact CoinsOk.cconf_aliases_ok|exact CoinsOk.conf_attr_aliases_ok]. Qed.
+Print Assumptions container_aliases_ok.
 
 (* 4. coherence of the tables.
       THE GOAL is [CoinsOk.table_coherent_stmt]:
